@@ -103,8 +103,8 @@ pub fn gen_step(rng: &mut Rng, kind: Kind, cur: &Bits, profile: Profile) -> Step
     loop {
         let choice = match profile {
             Profile::Edits => rng.below(11),
-            Profile::Cap => *rng.pick(&[0, 1, 3, 4, 6, 7, 8, 9, 11, 12, 13, 13, 12, 14, 20, 21]),
-            Profile::All => rng.below(30),
+            Profile::Cap => *rng.pick(&[0, 1, 3, 4, 6, 7, 8, 9, 11, 12, 13, 13, 12, 14, 20, 21, 30]),
+            Profile::All => rng.below(31),
         };
         let st = match choice {
             0 => {
@@ -192,6 +192,14 @@ pub fn gen_step(rng: &mut Rng, kind: Kind, cur: &Bits, profile: Profile) -> Step
             }
             27 => Step::new("split").a(Args { i: Some(rng.below(n + 1)), ..Default::default() }),
             28 => Step::new("push").a(Args { bit: Some(bitv), ..Default::default() }),
+            30 => {
+                // Clone::clone_from a source of the subject's own type, usually shorter than the subject
+                // (the destination's storage may be reused)
+                let rb = rng.below(n + 1);
+                let len = (*rng.pick(&[0usize, n / 2, n.saturating_sub(1), n, n.saturating_sub(64), n.saturating_sub(65), rb, n + 3, 5])).min(cap);
+                let b = if rng.chance(1, 3) { zeros(len) } else { random_bits(rng, len) };
+                Step::new("clone_from").yb(kind, b)
+            }
             _ => Step::new("resize").a(Args { n: Some(steer_len(rng, n, cap) as u128), bit: Some(bitv), ..Default::default() }),
         };
         // never exceed a fixed capacity here (overflow is C19's subject)
@@ -986,7 +994,12 @@ pub fn drive_c20(t: &Tier, sink: &mut Sink, stats: &mut Stats) {
             }
             let mut groups: Vec<(String, Value, u64)> = Vec::new();
             for kx in ALL_KINDS.iter().copied().filter(|k| k.admits(x.len())) {
-                let forms: [&'static str; 9] = ["vv", "vr", "rv", "rr", "av", "ar", "iv:D", "iv:A", "iv:F128x1"];
+                // the integer replaced by a vector built from it, in every kind that can hold the integer type
+                // (kinds too small for it are skipped by forms_event_prep)
+                const IV: [&str; 17] = ["iv:D", "iv:A", "iv:F128x1", "iv:F64x4", "iv:F128x4", "iv:F64x2", "iv:Fux4", "iv:F32x4", "iv:F16x4", "iv:F8x4",
+                                        "iv:F64x1", "iv:Fux1", "iv:F32x1", "iv:F16x1", "iv:F8x1", "iv:F8x2", "iv:F8x3"];
+                let mut forms: Vec<&'static str> = vec!["vv", "vr", "rv", "rr", "av", "ar"];
+                forms.extend(IV.iter().copied().filter(|f| Kind::from_name(&f[3..]).map(|k| k.admits(ty.width())).unwrap_or(false)));
                 let preps = [Prep::Fresh, Prep::Heap, Prep::Spare, Prep::Shrunk];
                 let (ev, key) = forms_event_prep(t, op, kx, x, &YSpec::Int(ty, v), None, &Args::default(), &forms, preps[rot % preps.len()], Prep::Fresh);
                 stats.execs += 9;
